@@ -80,7 +80,7 @@ CONTROLS = [
     ("reorder-laplacian-terms", E2 + "diffusion_flux_2d.py", "field[1, 0] + field[-1, 0] + field[0, 1] + field[0, -1] - 4 * field[0, 0]", "field[0, 1] + field[0, -1] - 4 * field[0, 0] + field[-1, 0] + field[1, 0]", ["C04", "C05", "C13", "C16"]),
     ("prefactor-on-the-left", E2 + "outplane_field_curl_2d.py", "curl_x[0, 0] @= (field[1, 0] - field[-1, 0]) * prefactor", "curl_x[0, 0] @= prefactor * field[1, 0] - prefactor * field[-1, 0]", ["C05", "C12", "C13", "C14"]),
     ("one-third-as-two-sixths", E2 + "advection_flux_2d.py", "(1 / 3) * field[0, 1] * velocity_x[0, 1]", "(2 / 6) * field[0, 1] * velocity_x[0, 1]", ["C04", "C05", "C13"]),
-    ("rename-stencil-and-field", E3 + "divergence_3d.py", "_divergence_stencil_3d", "_div_stencil", ["C12", "C13", "C15"]),
+    ("rename-stencil", E3 + "divergence_3d.py", "_divergence_stencil_3d", "_div_stencil", ["C12", "C13", "C15"], 0),
     ("swap-independent-curl-launches", E3 + "curl_3d.py", "        # curl_x = df_z / dy - df_y / dz\n        _curl_x_comp_3d(\n            curl_x=curl[x_axis_idx],\n            field_z=field[z_axis_idx],\n            field_y=field[y_axis_idx],\n            prefactor=prefactor,\n        )\n        # curl_y = df_x / dz - df_z / dx\n        _curl_y_comp_3d(\n            curl_y=curl[y_axis_idx],\n            field_x=field[x_axis_idx],\n            field_z=field[z_axis_idx],\n            prefactor=prefactor,\n        )",
      "        _curl_y_comp_3d(\n            curl_y=curl[y_axis_idx],\n            field_x=field[x_axis_idx],\n            field_z=field[z_axis_idx],\n            prefactor=prefactor,\n        )\n        _curl_x_comp_3d(\n            curl_x=curl[x_axis_idx],\n            field_z=field[z_axis_idx],\n            field_y=field[y_axis_idx],\n            prefactor=prefactor,\n        )", ["C12", "C13", "C15", "C01"]),
     ("drop-writeable-flag", "sopht/simulator/immersed_body/immersed_body_flow_interaction.py", "        self.eul_grid_velocity_field.flags.writeable = False\n", "", ["C10"]),
@@ -98,9 +98,10 @@ CONTROLS = [
 
 
 def _run(job):
-    kind, name, f, old, new, pids = job
+    kind, name, f, old, new, pids = job[:6]
+    count = job[6] if len(job) > 6 else 1
     from tools_mutate import run_mutant
-    res = run_mutant(f, old, new, pids, 1)
+    res = run_mutant(f, old, new, pids, count)
     return kind, name, pids, res
 
 
